@@ -610,6 +610,35 @@ func ruleEngineVerdict(c *Ctx) {
 		} else {
 			c.ok(key, fd.Pos(), "%v", got)
 		}
+		// every engine query lies on every path that reaches the final notification (no query is conditional)
+		{
+			g := cfg.New(fd.Body, func(*ast.CallExpr) bool { return true })
+			var locs []callLoc
+			for _, b := range g.Blocks {
+				for i, nd := range b.Nodes {
+					ast.Inspect(nd, func(m ast.Node) bool {
+						for _, cl := range calls {
+							if m == ast.Node(cl) {
+								locs = append(locs, callLoc{b, i, cl})
+							}
+						}
+						return true
+					})
+				}
+			}
+			if len(locs) == len(calls) && len(calls) >= 2 {
+				last := locs[len(locs)-1]
+				for _, l := range locs[:len(locs)-1] {
+					nme := l.call.Fun.(*ast.SelectorExpr).Sel.Name
+					k := fork + ".VerifyAndNotifyNewPayload." + nme + ".always"
+					if l.blk != last.blk && !cuts(g, []callLoc{l}, []*cfg.Block{last.blk}) {
+						c.bad(k, l.call.Pos(), "%s is only asked on some paths: the payload can reach the engine's final notification (and be accepted) without this query, so an `invalid`/error answer to it is never seen", nme)
+					} else {
+						c.ok(k, l.call.Pos(), "asked on every path to the final notification")
+					}
+				}
+			}
+		}
 		parents := parentMap(fd.Body)
 		for i, call := range calls {
 			n := call.Fun.(*ast.SelectorExpr).Sel.Name
@@ -979,6 +1008,19 @@ func ruleMerkleBound(c *Ctx) {
 				}
 				return true
 			})
+			if inc != nil && fd.Name.Name == "ProcessDeposit" {
+				g := cfg.New(fd.Body, func(*ast.CallExpr) bool { return true })
+				calls := cfgCalls(info, g, func(q string, f *types.Func) bool { return f.Name() == "IncrementDepositIndex" })
+				var locs []callLoc
+				for _, l := range calls {
+					locs = append(locs, l...)
+				}
+				if cuts(g, locs, successReturns(info, g)) {
+					c.ok(site+".increment-always", inc.Pos(), "every success path (including the skipped-deposit paths) advances the deposit index")
+				} else {
+					c.bad(site+".increment-always", inc.Pos(), "a path returns success without advancing eth1_deposit_index: the spec advances it for every deposit, also for the ones it skips (invalid pubkey / proof of possession)")
+				}
+			}
 			if inc != nil {
 				if inc.Pos() > call.Pos() {
 					c.ok(site+".before-increment", inc.Pos(), "proof is checked before the deposit index advances")
